@@ -10,7 +10,7 @@
 //	num  := h<hex IEEE bits (8 digits = float32, 16 = float64)> | <int> | <int>/<power of two>
 //
 // Output: `R <poly>` (numbers as h<bits> of the operand float type) or `operands-modified` / `empty-mismatch` /
-// `panic` / `timeout` (per-call watchdog) / `bad-op`.
+// `panic` / `bad-op`; the process exits with status 124 when a call exceeds the watchdog limit.
 package main
 
 import (
@@ -223,19 +223,14 @@ func runT[T constraints.Float](op string, t *tokens) string {
 
 type area struct{ kind int }
 
-// Every call runs under a watchdog: a clipper that loops costs callTimeout, not the stream's timeout.  The looping
-// goroutine cannot be killed, so after maxTimeouts of them the rest of the stream is skipped (`skipped-after-crash`,
-// the token vlib uses for "not executed").
-var (
-	callTimeout = 5 * time.Second
-	maxTimeouts = 3
-	timeouts    int
-)
+// Every call runs under a watchdog: a clipper that loops costs callTimeout, not the stream's timeout.  A looping
+// goroutine cannot be killed (and may allocate without bound), so the PROCESS exits with status 124; core.run_impl then
+// attributes the death to the line (`crash:exit124`) and skips the rest of the stream.  vlib/C05.py re-runs such a line
+// alone with a longer limit (C05_CALL_TIMEOUT_MS) before it reports it, so a stall of an overloaded machine is not
+// mistaken for a loop.
+var callTimeout = 2 * time.Second
 
 func (area) Run(line string) string {
-	if timeouts >= maxTimeouts {
-		return "skipped-after-crash"
-	}
 	done := make(chan string, 1)
 	go func() {
 		defer func() {
@@ -253,7 +248,7 @@ func (area) Run(line string) string {
 	case out := <-done:
 		return out
 	case <-time.After(callTimeout):
-		timeouts++
+		os.Exit(124)
 		return "timeout"
 	}
 }
